@@ -140,11 +140,9 @@ def coq_term(ictx, term, scheme):
     syms = []
     for o in term.objects:
         if isinstance(o.base, Symbol):
-            nm = o.name
             ex = sympy.sympify(o.exponent)
             exn = int(ex) if ex.is_Integer and ex > 0 else 0
-            syms.append(f"({'None' if nm is None else '(Some ' + coq_str(nm) + ')'}"
-                        f", {exn}%nat)")
+            syms.append(f"({coq_str(str(o.base))}, {exn}%nat)")
     spaces = adcio.coq_list(adcio.coq_list(SPACE[c] for c in o.space)
                             for o in term.objects)
     if scheme is None:
